@@ -553,6 +553,122 @@ theorem feesFor_spec {env : Env} {a g : Nat} {f : Nat × Nat × Nat} (h : feesFo
         simp only [Bool.or_eq_true, beq_iff_eq, not_or] at hcs
         exact ⟨m, hm, by simpa using hm0, hcs.1, hcs.2, h⟩
 
+/-! assignments other than the first one: `reassign`, `attest` -/
+
+/-- `handTo` rewrites assignee and relayer address only -/
+theorem handTo_rest (it : Item) (vr : Nat × Nat) :
+    (handTo it vr).id = it.id ∧ (handTo it vr).pub = it.pub ∧ (handTo it vr).err = it.err ∧
+    (handTo it vr).assignee = vr.1 ∧ (handTo it vr).remote = vr.2 := ⟨rfl, rfl, rfl, rfl, rfl⟩
+
+theorem reassignAux_carries_pick (env : Env) (ts : Nat) (flags : JobFlags) (q : List Item)
+    (hok : (reassignAux env ts flags q).2 = true) (it' : Item) (hit : it' ∈ (reassignAux env ts flags q).1)
+    (hstale : (assoc? flags it'.id).isSome = true) (hpub : it'.pub = false) (herr : it'.err = false) :
+    pick env (mevDemanded flags it'.id) ts = some (it'.assignee, it'.remote) := by
+  induction q with
+  | nil => simp [reassignAux] at hit
+  | cons it rest ih =>
+    unfold reassignAux at hok hit
+    split at hok
+    · rename_i hc
+      split at hok
+      · cases hok
+      · rename_i vr hp
+        simp only [hc, hp, if_true] at hit
+        rcases List.mem_cons.mp hit with h | h
+        · subst h
+          simpa [handTo] using hp
+        · exact ih hok h
+    · rename_i hc
+      simp only [hc] at hit
+      rcases List.mem_cons.mp hit with h | h
+      · subst h
+        simp [hstale, hpub, herr] at hc
+      · exact ih hok h
+
+theorem reassignAux_rest (env : Env) (ts : Nat) (flags : JobFlags) (q : List Item) :
+    (reassignAux env ts flags q).1.map (fun it => { it with assignee := 0, remote := 0 }) =
+      q.map (fun it => { it with assignee := 0, remote := 0 }) := by
+  induction q with
+  | nil => simp [reassignAux]
+  | cons it rest ih =>
+    unfold reassignAux
+    split
+    · split
+      · rfl
+      · simp only [List.map_cons, ih]
+        simp [handTo]
+    · simp only [List.map_cons, ih]
+
+
+
+theorem remove_env (s : State) (id : Nat) : (remove s id).1.env = s.env ∧ (remove s id).1.nextId = s.nextId := by
+  unfold remove; split <;> exact ⟨rfl, rfl⟩
+
+theorem mem_remove {s : State} {id : Nat} {x : Item} (h : x ∈ (remove s id).1.queue) : x ∈ s.queue := by
+  unfold remove at h
+  split at h
+  · exact h
+  · exact (List.mem_filter.mp h).1
+
+/-- what one attested message leaves behind: queue items that were there, and at most the retry -/
+theorem attestOne_spec (ts : Nat) (flags : JobFlags) (s : State) (it : Item) :
+    (attestOne ts flags s it).env = s.env ∧ s.nextId ≤ (attestOne ts flags s it).nextId ∧
+    ∀ x ∈ (attestOne ts flags s it).queue, x ∈ s.queue ∨
+      (s.nextId < x.id ∧ x.id ≤ (attestOne ts flags s it).nextId ∧ x.elected = 0 ∧ x.fees = none ∧ x.estimates = [] ∧ x.reqEst = true ∧
+        x.kind = .slc ∧ x.content = it.content ∧ x.sender = it.sender ∧ it.kind = .slc ∧ retryLeft flags it.id = true ∧
+        pick s.env (mevDemanded flags it.id) ts = some (x.assignee, x.remote)) := by
+  unfold attestOne
+  split
+  · exact ⟨rfl, Nat.le_refl _, fun x h => Or.inl h⟩
+  · split
+    · exact ⟨rfl, Nat.le_refl _, fun x h => Or.inl h⟩
+    · split
+      · exact ⟨rfl, Nat.le_refl _, fun x h => Or.inl h⟩
+      · split
+        · rename_i hc
+          simp only [Bool.and_eq_true, beq_iff_eq] at hc
+          obtain ⟨hre, hrn⟩ := remove_env s it.id
+          unfold enqueue
+          rw [hre]
+          cases hp : pick s.env (mevDemanded flags it.id) ts with
+          | none =>
+            simp only
+            exact ⟨hre, by omega, fun x h => Or.inl (mem_remove h)⟩
+          | some vr =>
+            simp only [put]
+            refine ⟨hre, by omega, fun x h => ?_⟩
+            rcases List.mem_append.mp h with h | h
+            · exact Or.inl (mem_remove h)
+            · right
+              simp only [List.mem_singleton] at h
+              subst h
+              simp [newItem, senderOf, Kind.feePayer, hrn, hc.1, hc.2]
+        · obtain ⟨hre, hrn⟩ := remove_env s it.id
+          exact ⟨hre, by omega, fun x h => Or.inl (mem_remove h)⟩
+
+
+theorem attestFold_spec (ts : Nat) (flags : JobFlags) : ∀ (l : List Item) (s : State),
+    (l.foldl (attestOne ts flags) s).env = s.env ∧ s.nextId ≤ (l.foldl (attestOne ts flags) s).nextId ∧
+    ∀ x ∈ (l.foldl (attestOne ts flags) s).queue, x ∈ s.queue ∨
+      (s.nextId < x.id ∧ x.elected = 0 ∧ x.fees = none ∧ x.kind = .slc ∧
+        ∃ it ∈ l, it.kind = .slc ∧ retryLeft flags it.id = true ∧ x.content = it.content ∧ x.sender = it.sender ∧
+          pick s.env (mevDemanded flags it.id) ts = some (x.assignee, x.remote)) := by
+  intro l
+  induction l with
+  | nil => intro s; exact ⟨rfl, Nat.le_refl _, fun x h => Or.inl h⟩
+  | cons it rest ih =>
+    intro s
+    simp only [List.foldl_cons]
+    obtain ⟨he1, hn1, hq1⟩ := attestOne_spec ts flags s it
+    obtain ⟨he2, hn2, hq2⟩ := ih (attestOne ts flags s it)
+    refine ⟨he2.trans he1, Nat.le_trans hn1 hn2, fun x hx => ?_⟩
+    rcases hq2 x hx with h | ⟨hlt, h0, hf, hk, it2, hit2, hk2, hr2, hc2, hs2, hp2⟩
+    · rcases hq1 x h with h | ⟨hlt, _, h0, hf, _, _, hk, hc, hsd, hik, hrl, hp⟩
+      · exact Or.inl h
+      · exact Or.inr ⟨hlt, h0, hf, hk, it, List.mem_cons_self, hik, hrl, hc, hsd, hp⟩
+    · rw [he1] at hp2
+      exact Or.inr ⟨by omega, h0, hf, hk, it2, List.mem_cons_of_mem _ hit2, hk2, hr2, hc2, hs2, hp2⟩
+
 end Lemmas
 
 /-! ## Property theorems -/
@@ -1529,6 +1645,50 @@ theorem narrow_before_rounding_breaks_formula :
     mulFeeNarrowFirst 18446744073709551616000000000000000000 1 = mulFee 18446744073709551616000000000000000000 1 ∧
     mulFeeNarrowFirst 1250000000000000000 21000 = mulFee 1250000000000000000 21000 := by decide
 
+/-- **reassigned_message_carries_current_account** (clause 1 for every LATER assignment: "the assignee's account on the
+target chain in the current snapshot is the relayer address the message carries").  After a successful run of
+`ReassignOrphanedMessages` at any block time, over any environment, every stale message without delivery / error report —
+whoever held it before, the validator picked now included — is assigned to a validator of the CURRENT snapshot with fee
+and metrics on record, and the relayer address it carries is the address of that validator's first target-chain account
+in the current snapshot, which carries the MEV trait when the job demands it. -/
+theorem reassigned_message_carries_current_account (s : State) (ts : Nat) (flags : JobFlags)
+    (hok : (reassign s ts flags).2 = true) (it' : Item) (hit : it' ∈ (reassign s ts flags).1.queue)
+    (hstale : (assoc? flags it'.id).isSome = true) (hpub : it'.pub = false) (herr : it'.err = false) :
+    (reassign s ts flags).1.env = s.env ∧
+    ∃ snap, s.env.snapshot = some snap ∧
+      ∃ sv ∈ snap.vals, sv.id = it'.assignee ∧
+        ∃ a ∈ sv.accounts, a.chain = targetChain ∧ a.addr = it'.remote ∧ (mevDemanded flags it'.id = true → a.mev = true) ∧
+          (assoc? s.env.fees it'.assignee).isSome ∧ (assoc? s.env.metrics it'.assignee).isSome :=
+  ⟨rfl, pick_eligible s.env _ ts _ _ (reassignAux_carries_pick s.env ts flags s.queue hok it' hit hstale hpub herr)⟩
+
+/-- **reassign_touches_only_the_relayer.**  Position by position the queue after the loop (successful or not) is the
+queue before it up to assignee and relayer address: ids, kinds, senders, estimates, elected estimate, fees, signatures,
+evidence and reports are untouched (the C04 side of it is `reassign_keeps_elected` in Props/C04.lean; that the signatures
+stay although the relayer address is part of the signing bytes is the C06 remark on `reassignDead`). -/
+theorem reassign_touches_only_the_relayer (s : State) (ts : Nat) (flags : JobFlags) :
+    (reassign s ts flags).1.queue.map (fun it => { it with assignee := 0, remote := 0 }) =
+      s.queue.map (fun it => { it with assignee := 0, remote := 0 }) ∧
+    (reassign s ts flags).1.nextId = s.nextId ∧ (reassign s ts flags).1.regs = s.regs :=
+  ⟨reassignAux_rest s.env ts flags s.queue, rfl, rfl⟩
+
+/-- **retry_is_assigned_by_the_current_pick** (clause 1 for the retry of a failed job: "carries the MEV trait when the
+job demands it").  Every message in the queue after `CheckAndProcessAttestedMessages` was there before, or is the retry of
+a logic call `it` that was there, has retries left and whose failure reached consensus: the SAME job (payload, sender) and
+assigned, in the environment of that moment, to a snapshot validator with fee and metrics on record whose first
+target-chain account provides the relayer address and carries the MEV trait when the job of `it` demands it. -/
+theorem retry_is_assigned_by_the_current_pick (s : State) (ts : Nat) (flags : JobFlags) (x : Item)
+    (hx : x ∈ (attest s ts flags).queue) :
+    x ∈ s.queue ∨
+      ∃ it ∈ s.queue, it.kind = .slc ∧ retryLeft flags it.id = true ∧ x.kind = .slc ∧ x.content = it.content ∧ x.sender = it.sender ∧
+        s.nextId < x.id ∧
+        ∃ snap, s.env.snapshot = some snap ∧
+          ∃ sv ∈ snap.vals, sv.id = x.assignee ∧
+            ∃ a ∈ sv.accounts, a.chain = targetChain ∧ a.addr = x.remote ∧ (mevDemanded flags it.id = true → a.mev = true) ∧
+              (assoc? s.env.fees x.assignee).isSome ∧ (assoc? s.env.metrics x.assignee).isSome := by
+  rcases (attestFold_spec ts flags s.queue s).2.2 x hx with h | ⟨hlt, _, _, hk, it, hit, hik, hrl, hc, hsd, hp⟩
+  · exact Or.inl h
+  · exact Or.inr ⟨it, hit, hik, hrl, hk, hc, hsd, hlt, pick_eligible s.env _ ts _ _ hp⟩
+
 /-! ### non-vacuity -/
 
 def demoEnv : Env :=
@@ -1744,5 +1904,28 @@ example : offeredWith senderMsgPreFix (run demoUUOps).queue 2 = [1, 2, 3, 4] ∧
 -- `elected_immutable_hist` is not vacuous: `demoHist` elects 21000 for message 1; a later fee-table change, a late
 -- estimate and another end-block leave estimate and fees as they were (example above, "estimates after the election …")
 example : ((run demoHist).queue.map fun it => (it.id, it.elected)) = [(1, 21000), (2, 0)] := by decide
+
+/-! non-vacuity of the reassignment / retry theorems; `handToKeepSame` (an early exit when the validator stays) is the
+    negation witness: the message keeps address 4 while the snapshot says 20 -/
+def demoMoved : Env :=
+  { demoEnv with snapshot := some { vals := [⟨1, 5, [⟨0, 20, 20, false⟩]⟩, ⟨2, 5, [⟨1, 9, 9, true⟩, ⟨0, 8, 8, true⟩]⟩, ⟨3, 5, []⟩], total := 15 } }
+
+def demoStale : State := { (run demoHist) with env := demoMoved }
+
+example : ((reassign demoStale 0 [(1, false, false), (2, true, false)]).1.queue.map fun it => (it.id, it.assignee, it.remote)) =
+      [(1, 1, 20), (2, 2, 8)] ∧
+    ((reassign demoStale 0 [(1, false, false), (2, true, false)]).1.queue.map fun it => (it.elected, it.fees)) =
+      [(21000, some (23100, 693, 231)), (0, none)] ∧
+    (reassign demoStale 0 [(1, false, false), (2, true, false)]).2 = true := by decide
+example : (handToKeepSame ⟨1, .slc, 7, 9, 1, 4, true, [], 0, none, [], [], false, false⟩ (1, 20)).remote = 4 ∧
+    pick demoMoved false 0 = some (1, 20) := by decide
+-- the MEV job (message 2) fails with a retry left: the retry goes to the MEV validator again, at every slot
+example : ((attest (run (demoHist ++ [.addEvidence 2 1 1, .addEvidence 2 2 1])) 0 [(2, true, true)]).queue.map fun it => (it.id, it.assignee, it.remote)) =
+      [(1, 1, 4), (3, 2, 8)] ∧
+    ((attest (run (demoHist ++ [.addEvidence 2 1 1, .addEvidence 2 2 1])) 0 [(2, false, true)]).queue.map fun it => (it.id, it.assignee, it.remote)) =
+      [(1, 1, 4), (3, 1, 4)] ∧
+    ((attest (run (demoHist ++ [.addEvidence 2 1 1, .addEvidence 2 2 1])) 0 [(2, true, false)]).queue.map (·.id)) = [1] := by decide
+-- a failing pick stops the loop: nothing after it is touched
+example : (reassign { demoStale with env := { demoMoved with fees := [] } } 0 [(1, false, false)]).2 = false := by decide
 
 end Paloma.Queue
